@@ -368,6 +368,14 @@ static void c_iteration()
     ++it;
     require(it - v.begin() == 2 && it[0] == v[2] && *(it - 1) == v[1] && (it > v.begin()) && (v.begin() < it) && it >= it && it <= it, "random access iterator operations");
     require(it->data_begin() == v[2].data_begin(), "iterator operator->");
+    // iterator and const_iterator are interoperable in either operand order (loops like `it != v.cend()`)
+    require(v.begin() != v.cend() && !(v.begin() == v.cend()) && v.cbegin() != v.end() && !(v.cbegin() == v.end()), "mixed iterator / const_iterator ==, !=");
+    require(v.begin() < v.cend() && v.begin() <= v.cend() && v.end() > v.cbegin() && v.end() >= v.cbegin() && v.cbegin() < v.end() && v.cbegin() <= v.end() && v.cend() > v.begin() && v.cend() >= v.begin(),
+            "mixed iterator / const_iterator relational operators");
+    require(v.end() - v.cbegin() == 3 && v.cend() - v.begin() == 3, "mixed iterator / const_iterator difference");
+    typename Vec::const_iterator ci2{};
+    ci2 = it;
+    require(ci2 == it && it == ci2 && ci2.index() == 2, "const_iterator = iterator");
     expect_elem(v.front(), m.front(), "front()");
     expect_elem(std::as_const(v).back(), m.back(), "const back()");
 }
